@@ -281,6 +281,28 @@ pub fn run() -> i32 {
                 }
             }
         }
+        for code in 0..8u8 {
+            crate::sym::load(vec![vec![code]]);
+            n += 1;
+            if std::panic::catch_unwind(|| crate::node::c13_double_literal()).is_err() {
+                c11_bad += 1;
+                eprintln!("SELFTEST-FAIL: c13_double_literal: case {}", code);
+            }
+        }
+        for method in 0..2u8 {
+            for neg in 0..(2 - method) {
+                for hex in 0..2u8 {
+                    for mag in [0u128, 1, 16, 255, (1 << 63) - 1, 1 << 63, (1 << 63) + 1, (1 << 64) - 1, 1 << 64, 1 << 90] {
+                        crate::sym::load(vec![vec![method], vec![neg], vec![hex], mag.to_le_bytes().to_vec()]);
+                        n += 1;
+                        if std::panic::catch_unwind(|| crate::node::c13_literal()).is_err() {
+                            c11_bad += 1;
+                            eprintln!("SELFTEST-FAIL: c13_literal: method={} neg={} hex={} magnitude={}", method, neg, hex, mag);
+                        }
+                    }
+                }
+            }
+        }
         for code in 0..=5u8 {
             crate::sym::load(vec![vec![code]]);
             n += 1;
